@@ -447,7 +447,7 @@ fn frames_oracle(o: &mut Obs, frames: &[(Vec<u8>, Value)], stored: u64, plimit: 
             continue;
         }
         if !content[s..end_total].starts_with(pv) {
-            let class = if !is_char_boundary(content, s) || !is_char_boundary(content, end_total) { "preview_replacement_char_for_split_character" } else { "preview_not_prefix" };
+            let class = if !is_char_boundary(content, s) || !is_char_boundary(content, end_total) { "delta_preview_lossy_at_read_boundary_inside_character" } else { "preview_not_prefix" };
             o.fail(class, format!("frame preview is not a prefix of the output bytes {s}..{end_total} it refers to"));
         } else if pv.len() as u64 > lim {
             o.fail("preview_exceeds_limit", format!("frame preview of {} bytes, limit {plimit}", pv.len()));
@@ -557,7 +557,7 @@ fn capture_obs(o: &mut Obs, ws: &Path, lines: &[String], j: &Value, bytes: &[u8]
             e -= 1;
         }
         if norm_lines(std::str::from_utf8(&bytes[..e]).unwrap()) != lines {
-            o.fail("preview_replacement_char_for_split_character", format!("preview limit {pmax} falls inside a character: the preview text is not a prefix of the output"));
+            o.fail("shell_preview_lossy_when_limit_falls_inside_character", format!("preview limit {pmax} falls inside a character: the preview text is not a prefix of the output"));
         }
     }
     let tmp = ws.join(".rip").join("artifacts").join("tmp");
